@@ -177,6 +177,15 @@ def compare(o, a, m, hist, stats):
         hist["horizontal-shortcut"] += 1
     if "x" in fl:
         hist["exact-parameter-rows(no either-side tolerance)"] += 1
+    # OVER onto a non-empty destination = SRC into a temporary, then OVER (transparent pixels keep the destination)
+    if "O" in extra:
+        stats["over-checked-requests"] += 1
+        if extra["O"] != ["same"]:
+            f = extra["O"][0].split(":")
+            out.append(("oracle:over-vs-src-then-over", "%s|%s" % (d["kind"], REPS[d["rep"]]),
+                        "OP_OVER of the gradient onto an opaque pattern differs from OP_OVER of its OP_SRC picture at %s pixels; "
+                        "first: pixel %d,%d gradient pixel %s, direct OVER %s, SRC-then-OVER %s" % (
+                            f[1], int(f[2]) % d["W"], int(f[2]) // d["W"], f[5], f[3], f[4])))
     # metamorphic oracle, independent of any tolerance: the colour of a pixel does not depend on the walk
     if "P" in extra and "R" in extra and history_applies(d, fl):
         stats["history-checked-requests"] += 1
